@@ -24,6 +24,7 @@ class C03(Engine):
     quick_budget = 45
     quick_runs = 5000
     thorough_budget = 900
+    variants = ("small",)
     rule = ("run i = seeded byte map (1-5 segments; lengths biased to 1,15,16,17,255,256,257; gaps 0,1,15,16,65535,65536; bases at "
             "0, 0xfff0, 0x10000, 0xfffff0, 0x1000000, 0x7ffffff0, near 2^32; CPUs with 1/2/4/8 bytes per address, both byte orders, "
             "all three S-record sizes; optional entry point and exported labels) rendered with .org/.db only -> real naken_asm -type t "
@@ -48,11 +49,13 @@ class C03(Engine):
                 "stale": rng.pick([0, 0, 100, 5000, 200000]), "clock0": 1000000000 + rng.below(10 ** 9),
                 "chunk_seed": rng.u64() if rng.chance(1, 3) else 0,
                 "flags": rng.subset(["-l", "-q"], 1, 4),
+                "build": rng.pick(["san", "san", "small"]),
                 # where the source lives must not matter to what the file carries (ELF stores the name)
                 "srcpath": rng.pick(["a.asm", "a.asm", "src/a.asm", "./a.asm", "/sim/w/deep/dir/prog.asm", "../w/a.asm", "x/../a.asm"])}
 
     def run(self, ex, plan):
         res = RunResult()
+        ex = self.variant(ex, plan.get("build"))
         cpu = plan["cpu"]
         info = progs.cpu_info(cpu)
         bpa = info["bpa"]
